@@ -70,6 +70,7 @@ REC_CLASS = {
     "mention": _PM.ProvMention, "membership": _PM.ProvMembership,
     "element": _PM.ProvElement, "relation": _PM.ProvRelation,
 }
+HELD_CLASSES = {k: REC_CLASS[k] for k in ("element", "relation", "entity", "agent")}
 NO_ID_FACTORY = {"specialization", "alternate", "mention", "membership"}
 XSD_T = {"string": PC.XSD_STRING, "double": PC.XSD_DOUBLE, "long": PC.XSD_LONG,
          "int": PC.XSD_INT, "boolean": PC.XSD_BOOLEAN, "dateTime": PC.XSD_DATETIME,
@@ -310,7 +311,15 @@ class World(object):
             for r in recs:
                 if r.identifier is not None and r.identifier.uri not in uris:
                     uris.append(r.identifier.uri)
-            uris = uris[:4] + [uri_text(["a", "nope"])]
+            # ... identifiers that only OTHER containers (parent, bundles, siblings) hold: absent here
+            foreign = []
+            for h2, c2 in self.h.items():
+                if c2 is c:
+                    continue
+                for r in c2.records:
+                    if r.identifier is not None and r.identifier.uri not in uris and r.identifier.uri not in foreign:
+                        foreign.append(r.identifier.uri)
+            uris = uris[:4] + foreign[:3] + [uri_text(["a", "nope"])]
             for u in uris:
                 spell = [({"rep": "uri", "u": uri_segs(u)}, u)]
                 for (p, nsu) in vis:
@@ -322,7 +331,9 @@ class World(object):
                     spell.append(({"rep": "bare", "l": local_segs(l)}, l))
                 for (n, text) in spell:
                     got = c.get_record(text)
-                    look.append({"h": h, "n": n, "idx": [pos.get(id(g), 0) for g in (got or [])]})
+                    q = c.valid_qualified_name(text)
+                    look.append({"h": h, "n": n, "idx": [pos.get(id(g), 0) for g in (got or [])],
+                                 "den": uri_segs(q.uri) if q is not None else []})
             t = {}
             for k, cls in REC_CLASS.items():
                 t[k] = [pos.get(id(r), 0) for r in c.get_records(cls)]
@@ -611,7 +622,10 @@ class World(object):
                 recs = c.records
                 idx = []
                 for g in (got or []):
-                    idx += [i + 1 for i, r in enumerate(recs) if r is g]
+                    hit = [i + 1 for i, r in enumerate(recs) if r is g]
+                    idx += hit or [0]         # 0: a record that is not in this container
+                q = c.valid_qualified_name(ident)
+                self.den = uri_segs(q.uri) if q is not None else []
                 return idx
             return run
         if op == "AddNs":
@@ -663,10 +677,35 @@ class World(object):
             return run
         return self.prepare(a)
 
+    def hold_typed(self):
+        """get_records(cls) of every container, obtained now and consumed later (after the call of
+        this step): the listing is of the records at the time it was asked for."""
+        held = {}
+        for h, c in self.h.items():
+            pos = {id(r): i + 1 for i, r in enumerate(c.records)}
+            held[h] = (pos, {k: c.get_records(cls) for k, cls in HELD_CLASSES.items()})
+        return held
+
+    @staticmethod
+    def consume_typed(held):
+        out = {}
+        for h, (pos, lst) in held.items():
+            out[h] = {}
+            for k, it in lst.items():
+                got = []
+                for n, r in enumerate(it):
+                    if n >= 200:        # a listing that follows a growing container never ends
+                        got.append(0)
+                        break
+                    got.append(pos.get(id(r), 0))
+                out[h][k] = got
+        return out
+
     def step(self, a, want_pre):
         pre = self.observe() if want_pre else None
         exc = "none"
         thunk = self.prepare_total(a)
+        held = self.hold_typed() if want_pre else None
         try:
             res = thunk()
         except Exception as e:  # recorded, judged by the clauses
@@ -675,6 +714,8 @@ class World(object):
         st = {"op": a, "exc": exc, "res": res, "post": self.observe(),
               "parents": self.parents, "reres": self.reres()}
         st["look"], st["typed"], st["copy"] = self.lookups()
+        if a["op"] == "GetRecord" and exc == "none":
+            st["den"] = self.den
         if a["op"] == "RT":
             st.update(self.rt)
         if a["op"] in ("Graph", "Dot", "Load", "Corpus") and exc == "none":
@@ -685,6 +726,7 @@ class World(object):
             st["events"], st["final"], st["fired"] = sv["events"], sv["final"], sv["fired"]
         if pre is not None:
             st["pre"] = pre
+            st["held"] = self.consume_typed(held)
         return st
 
 
